@@ -32,6 +32,26 @@ def classify(data):
     return cls
 
 
+_TRAIL_WS = None
+
+
+def prev_code_byte(b, o):
+    """The last byte before offset o that is not layout, or None when that cannot be told without parsing (a comment marker on the
+    way: `//` anywhere on the line, or a block comment end). No verdict is better than a guess here."""
+    import re
+    global _TRAIL_WS
+    if _TRAIL_WS is None:
+        _TRAIL_WS = re.compile(rb"(?:[ \t\r\n\x0b\x0c]|\xc2\x85|\xe2\x80[\x8e\x8f\xa8\xa9])+\Z")
+    m = _TRAIL_WS.search(b, max(0, o - 4096), o)
+    j = m.start() if m else o
+    if j <= 0 or b[j - 2:j] == b"*/":
+        return None
+    ls = b.rfind(b"\n", 0, j) + 1
+    if b.find(b"//", ls, j) >= 0 or b.find(b"/*", ls, j) >= 0:
+        return None
+    return b[j - 1:j]
+
+
 def shape_of(before, after):
     """signature shape of the first difference region."""
     n = min(len(before), len(after))
@@ -76,6 +96,19 @@ def judge_files(files_before, out, truth=None, structured=False):
             continue
         assert strip_tokens(after, toks) == before
         c["tokens"] += len(toks)
+        # where a token may go: `[ref: N] ` at the first character of a message literal, `ref = N` among the macro arguments
+        # (right after the opening bracket or after the separator that follows a target) - never in the middle of other text
+        for t in toks:
+            o = t["off"]
+            if t["style"] == "msg":
+                if before[o - 1:o] != b'"':
+                    v.append(("token-not-at-the-start-of-a-literal", rel, {"context": before[max(0, o - 30):o + 30], "token": t["tok"]}))
+                    break
+            else:
+                pc = prev_code_byte(before, o)
+                if pc is not None and pc not in (b"(", b","):
+                    v.append(("token-not-at-the-start-of-the-argument-list", rel, {"context": before[max(0, o - 30):o + 30], "token": t["tok"], "previous_code_byte": pc}))
+                    break
         classes |= cl
         if len(toks) >= 1000:
             classes.add("ge1000_insertions")
